@@ -32,7 +32,7 @@ func init() {
 			"only representable values are generated (the property's precondition); sampled, not exhaustive",
 		},
 		Shards:   shards(8, 16),
-		Timeout:  timeouts(5*time.Minute, 30*time.Minute),
+		Timeout:  timeouts(12*time.Minute, 90*time.Minute),
 		MinEvals: 1000,
 		Required: req,
 		Run:      runC01,
